@@ -63,6 +63,11 @@ MUTANTS = {
                                                          "        shared = {'find_overrides', 'searched_programs', 'dependency_overrides'}\n        for k, v in self.__dict__.items():\n            other.__dict__[k] = v if k in shared else copy.copy(v)\n        return other\n\n    def copy_for_build_machine"),
     'M45-dependency-cache-key-ignores-search-path-order': ('mesonbuild/coredata.py',
                                                            "        return tuple(data[type_])\n", "        return tuple(sorted(set(data[type_])))\n"),
+    'M46-unknown-version-meets-upper-bounds-on-detection': ('mesonbuild/dependencies/base.py',
+                                                           "            # an unknown version can never satisfy any requirement\n            if not self.version:\n",
+                                                           "            # an unknown version can never satisfy any requirement\n            if self.version is None:\n"),
+    'M47-not_found_message-part-of-dependency-identity': ('mesonbuild/dependencies/detect.py',
+                                                          "'default_options',\n                   'not_found_message', 'include_type'}:", "'default_options',\n                   'include_type'}:"),
 }
 
 
